@@ -202,7 +202,7 @@ class AppRun:
 
     def __init__(self, site, argv, chooser, *, strategy=None, workdir=None,
                  connect='immediate', watchdog=20.0, horizon=60000, early=True,
-                 hooks=None, peer=None):
+                 hooks=None, peer=None, chunk=None):
         self.site, self.argv, self.chooser = site, list(argv), chooser
         self.strategy = strategy
         self.workdir = workdir
@@ -213,6 +213,7 @@ class AppRun:
         self.watchdog = watchdog
         self.hooks = hooks or {}
         self.custom_peer = peer
+        self.chunk = chunk
         self.result = None
 
     def run(self, faults=None, on_step=None, on_quiescent=None, setup=None):
@@ -223,7 +224,7 @@ class AppRun:
         loop.watchdog = self.watchdog
         env = Env(loop)
         peer = self.custom_peer or SitePeer(self.site, self.strategy)
-        net = Net(loop, env, peer, connect=self.connect).install()
+        net = Net(loop, env, peer, connect=self.connect, chunk=self.chunk).install()
         # fake connections remember the host *name* through the resolver table
         orig_open = net.open_connection
 
